@@ -344,6 +344,80 @@ func init() {
 		c.RequireGuards("C24a", sites, "SetReputationScore",
 			FactHas("benchmark-non-negative", "!call(cosmossdk.io/math.LegacyDec.IsNegative)(param#3)"),
 			FactHas("score-non-negative", "!call(cosmossdk.io/math.LegacyDec.IsNegative)(call(x/pairing/types.Frac.Resolve)("))
+		c.Rule("C24c decay applies to the past only: in Reputation.ApplyTimeDecayAndUpdateScore each of the four stored fractions (score and variance, numerator and denominator) becomes old·decay + this epoch's, i.e. Add(Mul(old, decay), epoch) — directly or through a helper all of whose returns have that shape; decaying the sum instead zeroes the fresh epoch score when the decay factor underflows to 0, which leaves a zero denominator (an invalid reputation)")
+		if ad := c.Fn("x/pairing/types.Reputation.ApplyTimeDecayAndUpdateScore"); ad != nil {
+			const addP = "call(cosmossdk.io/math.LegacyDec.Add)(call(cosmossdk.io/math.LegacyDec.Mul)("
+			var shape func(v ssa.Value, depth int) (bool, string)
+			shape = func(v ssa.Value, depth int) (bool, string) {
+				d := ir.DescN(unconv(v), 8)
+				if strings.HasPrefix(d, addP) {
+					return true, ""
+				}
+				call, ok := unconv(v).(*ssa.Call)
+				if !ok || depth <= 0 {
+					return false, trunc(d, 100)
+				}
+				callee := call.Call.StaticCallee()
+				if callee == nil || callee.Blocks == nil || !inProd(callee) {
+					return false, trunc(d, 100)
+				}
+				n := 0
+				for _, r := range c.AllReturns(callee) {
+					for _, leaf := range phiLeaves(RetVal(r.Instr.(*ssa.Return), 0)) {
+						n++
+						if ok, why := shape(leaf, depth-1); !ok {
+							return false, ir.FuncName(callee) + " returns " + why
+						}
+					}
+				}
+				return n > 0, ir.FuncName(callee)
+			}
+			nSt := 0
+			// the updates are either written inline or built by a helper of the same package that returns the new fraction
+			scan := []*ssa.Function{ad}
+			ir.EachInstr(ad, func(in ssa.Instruction) {
+				if call := ir.CallOf(in); call != nil {
+					if callee := call.StaticCallee(); callee != nil && callee.Blocks != nil && inProd(callee) && strings.HasPrefix(ir.FuncName(callee), "x/pairing/types.") && strings.HasSuffix(callee.Signature.Results().String(), "types.Frac)") {
+						scan = append(scan, callee, callee) // a fraction helper stands for a numerator and a denominator update per use
+					}
+				}
+			})
+			seenFn := map[*ssa.Function]bool{}
+			for _, f := range scan {
+				weight := 1
+				if seenFn[f] {
+					continue
+				}
+				seenFn[f] = true
+				if f != ad {
+					weight = 2
+				}
+				ir.EachInstr(f, func(in ssa.Instruction) {
+					st, ok := in.(*ssa.Store)
+					if !ok {
+						return
+					}
+					fa, ok := st.Addr.(*ssa.FieldAddr)
+					if !ok {
+						return
+					}
+					k := ir.FieldKey(fa)
+					if k != "x/pairing/types.Frac.Num" && k != "x/pairing/types.Frac.Denom" {
+						return
+					}
+					nSt += weight
+					key := "C24c/" + f.Name() + "/old·decay+epoch#" + itoa(nSt)
+					if ok, why := shape(st.Val, 1); ok {
+						c.OK(key, c.P.InstrPos(st), "Add(Mul(old, decay), epoch)")
+					} else {
+						c.Fail(key, c.P.InstrPos(st), "a reputation fraction is updated to "+why+", not old·decay + this epoch's: the fresh epoch score is decayed as well, and a decay factor of 0 leaves a zero denominator")
+					}
+				})
+			}
+			if nSt != 4 {
+				c.Undecided("C24c: expected the four fraction updates in ApplyTimeDecayAndUpdateScore, found %d", nSt)
+			}
+		}
 		c.Rule("C24b the table's value is what gets stored, for everyone updated: SetReputationScore appends its score parameter to the pairing-score store on every successful return (no 'unchanged enough' skip: that compares a provider with its own past, not with its peers); in UpdateReputationsForEpochStart every reputation that is stored at this epoch start (SetReputation) is also entered into the per-chain-and-cluster scores collection before the next one is read, so that it is re-scored against the same benchmark as its peers")
 		const pk = "x/pairing/keeper.Keeper."
 		if srs := c.Fn(pk + "SetReputationScore"); srs != nil {
